@@ -7,3 +7,10 @@ claim("C01", "link-closure, exhaustiveness, must-call and lexical lints over the
 claim("C06", "finite-domain abstract interpretation of operator arms over (operator, kind) pairs + coercion/constant tables",
       "Decides that fixNumber/$internalize implement the width table, that every (operator, kind) pair whose JavaScript result can overflow returns a correctly coerced expression (all 11 small kinds x all operators enumerated), helper dispatch and mode flags, divide-by-zero throws, radix constants of the 64-bit helpers, operator totality. Does not decide numeric values.",
       TB, "DESIGN.md §3 C06")
+
+claim("C09", "key-flow (taint) analysis on the prelude AST, constructor-key completeness against Go's type-identity rules, record-schema agreement, method-name mangling agreement",
+      "Decides that no type display string reaches a run-time table key (165 key positions examined), that each canonicalising constructor keys on every identity-relevant parameter/record key, that $assertType compares name/pkg/typ, that emitted method/field records contain every key the prelude reads, that every emitted method-name lookup is mangled, and totality of $equal. These are the places where distinct types were conflated or methods lost in the defects found and repaired. Does not decide promotion results for arbitrary embedding graphs.",
+      TB, "DESIGN.md §3 C09")
+claim("C15", "exhaustiveness over $kind arms, escape-chain recognition on the keyFor closures, template-argument provenance",
+      "Decides that every comparable kind installs keyFor and only func/map/slice are non-comparable, that composite keys escape the escape character then the separator before joining, that interface keys are keyed by type identity (shared taint rule), and that literal/index/store/delete use the map's key type and {k,v} records; nil-map arms present. Does not decide operation histories.",
+      TB, "DESIGN.md §3 C15")
